@@ -168,8 +168,12 @@ class UnitExporter:
                 kind = ("size" if a.type == T.size else "bool" if a.type == T.bool
                         else "stride" if a.type == T.stride else "index")
                 args.append({"n": self.sym(a.name), "kind": kind, "win": False, "shape": []})
+        preds = [self.e(x) for x in p.preds]
+        if '"illtyped"' in __import__("json").dumps(preds):
+            # an assertion is evaluated before any statement (ValidInput / PredsOK): there is no place to trap
+            raise ExportError("ill-typed literal inside an assertion")
         self.procs[pid] = {"name": str(p.name), "args": args,
-                           "preds": [self.e(x) for x in p.preds],
+                           "preds": preds,
                            "blocks": blocks, "entry": entry}
         return pid + 1
 
